@@ -440,7 +440,7 @@ NET_POOL = ["10.0.0.0/8", "192.168.1.0/24", "192.168.1.1/24", "0.0.0.0/0", "1.2.
             "10.0.0.0/255.0.255.0", "10.0.0.0/a", "/8", "", "10.0.0.0 /8", " 10.0.0.0/8 ", "128.0.0.0/1", "10.0.0.0/16", "172.16.0.0/12", "1.1.1.1/31", "1.1.1.0/31",
             "0.0.0.0/0.0.0.0", "0.0.0.0/255.255.255.255", "1.2.3.4/255.255.255.255", "10.0.0.0/٨"]
 HOST_POOL = ["localhost", "example.com", "a", "ab", "a-b.c", "-ab", "ab-", "a_b", "MYPC", "my pc", "host!", "toolongnetbiosname1", "under_score_host", "1.2.3.4",
-             "256.1.1.1", "a.b", "é", "éé", "host\n", "", "x" * 16, "x" * 15, "a..b", "A1", "~tilde", "{brace}", "a/b", "a:b"]
+             "256.1.1.1", "a.b", "é", "éé", "host\n", "example.com\n", "1.2.3.4\n", "a\n", "", "x" * 16, "x" * 15, "a..b", "A1", "~tilde", "{brace}", "a/b", "a:b"]
 URL_POOL = ["http://example.com", "https://a.b/c?d=e#f", "ftp://x", "mailto:a@b", "example.com", "//example.com/x", "http:", ":80", "1http://x", "a+b.c-d://x", "", "x",
             "HTTP://EXAMPLE.COM", " http://x", "http://x ", "\thttp://x", "ht tp://x", "http://[::1]/", "http://[::1/", "http://]x[/", "http://a]b/", "file:///etc/passwd",
             "a:b", "a1:b", "é://x", "http://é.com", "x:", "javascript:alert(1)", "ht\ntp://x", "http://exa\tmple.com"]
@@ -707,6 +707,14 @@ def satisfies(f, v):
         if f.get("max_prefix") is not None and n > f["max_prefix"]:
             return False
         return None if any(f.get(o) not in (None, [], "") for o in _STR_OPTS) else True
+    if k in ("hostname", "ipv4addr"):
+        # whatever else such a name has to be, it is text without line breaks, control characters or blanks at its ends
+        # (URLs are left to urllib: it drops tabs and line breaks while parsing, which is its documented behaviour)
+        if not isinstance(v, str):
+            return False
+        if any(ch in v for ch in "\n\r\x0b\x0c\x1c\x1d\x1e\x85\u2028\u2029") or v != v.strip():
+            return False
+        return None
     if k == "bytes":
         return isinstance(v, bytes)
     if k == "filename":
